@@ -6,7 +6,13 @@ SEQ_MAX = (1 << 40) - 1
 U64 = (1 << 64) - 1
 WINDOWS = ["0", "1", "2", "3", "4", "31", "32", "33", "62", "63", "64", "65", "100", "4294967295"]
 GEN_KINDS = "gex"         # genuine
-FORGE_KINDS = "fFPKO"     # fail authentication, or are turned away before it (K, O)
+FORGE_KINDS = "fFPKOSMA"   # fail authentication (S: ciphertext cut short), or are turned away before it (K, O, M)
+SHORT_LENS = [0, 1, 2, 7, 8, 9, 10]     # around the tag length (8) of AES-CCM-16-64-128
+
+
+def tok_seq(tok):
+    """sequence number of a token <kind><hexseq>[.<len>] (after an optional leading 2)"""
+    return int(tok[1:].split(".")[0], 16)
 
 
 def weff(wcfg):
@@ -162,7 +168,7 @@ def rpd_exhaustive(wcfg, b12, alphabet, maxlen, minlen=1):
             yield rpd_line(wcfg, b12, 0, ms)
 
 
-REQ_ALPHABET = ["g0", "g1", "g2", "g3", "g43", "e1", "f2", "P44", "F0", "K3", "2g1"]
+REQ_ALPHABET = ["g0", "g1", "g2", "g3", "g43", "e1", "f2", "P44", "F0", "K3", "2g1", "S4.3", "S2.8"]
 
 
 def rpd_random(r):
@@ -193,6 +199,10 @@ def rpd_random(r):
         elif s >= SEQ_MAX:
             s = SEQ_MAX - 1 - r.randrange(0, 3)      # the highest number a sender can use
         tok = "%s%x" % (kind, s)
+        if kind == "S":
+            tok += ".%d" % r.choice(SHORT_LENS)
+        if kind == "A":
+            tok += ".%d" % r.randrange(1, 26)
         if kind != "F" and r.random() < 0.15:
             tok = "2" + tok                      # the other recipient context of the server
         msgs.append(tok)
@@ -220,7 +230,7 @@ def parse_rpd(line, out):
             return None
         st0 = tuple(f[1:])
         st1 = tuple(parts[1].split(",")) if len(parts) > 1 else ("0", "0", "1")
-        steps.append((who, mm[0], int(mm[1:], 16), f[0], (st0, st1)))
+        steps.append((who, mm[0], tok_seq(mm), f[0], (st0, st1)))
     return t[2], int(t[3]), steps
 
 
@@ -335,7 +345,7 @@ def rpe_cases(quick):
         for b12 in (0, 1):
             for con in (0, 1):
                 for n in ns:
-                    for rep in (0, 1, 2, 3):
+                    for rep in (0, 1, 3, 5, 7):
                         if rep and n > 8:
                             continue
                         yield "rpe %s %d %d %d %d" % (w, b12, con, n, rep)
@@ -366,7 +376,7 @@ def parse_rpe(line, out):
         if ":" not in item:
             return None
         tok, st = item.split(":", 1)
-        kind = {"g": "g", "e": "e", "r": "g", "f": "f"}.get(tok[0])
+        kind = {"g": "g", "e": "e", "r": "g", "f": "f", "t": "f"}.get(tok[0])
         if kind is None:
             return None
         toks.append(kind + tok[1:])
@@ -397,7 +407,7 @@ def oracle_rpe(line, out):
 
 RESP_GENUINE = "qN"
 RESP_FORGED = "TRZW"
-RPX_ALPHABET = ["g1", "g3", "e2", "f4", "q2", "N4", "N6", "T5", "R6", "R3", "Z7", "W1"]
+RPX_ALPHABET = ["g1", "g3", "e2", "f4", "q2", "N4", "N6", "T5", "R6", "R3", "Z7", "W1", "S5.2", "R7.4"]
 
 
 def rpx_ok(ops):
@@ -444,7 +454,7 @@ def rpx_random(r):
         elif c < 0.62:
             kind = "Z"
         elif c < 0.75:
-            kind = r.choice("fPKO")
+            kind = r.choice("fPKOSSM")
         elif b12 and c < 0.85:
             kind = r.choice("ex")
         else:
@@ -455,6 +465,8 @@ def rpx_random(r):
         elif s >= SEQ_MAX:
             s = SEQ_MAX - 1 - r.randrange(0, 3)
         tok = "%s%x" % (kind, s)
+        if kind == "S" or (kind == "R" and r.random() < 0.5):
+            tok += ".%d" % r.choice([x for x in SHORT_LENS if x or kind == "S"])
         if kind == "q":
             have_q = True
             nq += 1
@@ -480,7 +492,7 @@ def oracle_rpx(line, out):
         f = o.split(",")
         if len(f) != 4:
             return ["unparsable result: %s" % out[:80]]
-        kind, seq, verdict, st = op[0], int(op[1:], 16), f[0], tuple(f[1:])
+        kind, seq, verdict, st = op[0], tok_seq(op), f[0], tuple(f[1:])
         what = "response" if kind in RESP_GENUINE + RESP_FORGED else "request"
         if kind in FORGE_KINDS or kind in RESP_FORGED:
             if verdict == "A":
